@@ -37,6 +37,19 @@ pub enum Form {
     NestedBlockComment,
 }
 
+/// bodies that are only legal in one comment style: `--` means nothing inside `/* */`
+/// (X.680 12.6.4) and `/*`, `*/` mean nothing inside a `--` comment (12.6.3)
+const BLOCK_ONLY_BODIES: [&str; 3] = ["range -- see clause 5", "-- dashes first", "a -- b -- c"];
+const LINE_ONLY_BODIES: [&str; 2] = ["slash-star /* inside", "star-slash */ inside"];
+
+fn body_for(form: Form, k: usize) -> &'static str {
+    match form {
+        Form::BlockComment | Form::NestedBlockComment if k % 3 == 0 => BLOCK_ONLY_BODIES[(k / 3) % BLOCK_ONLY_BODIES.len()],
+        Form::LineComment | Form::InlineComment if k % 4 == 0 => LINE_ONLY_BODIES[(k / 4) % LINE_ONLY_BODIES.len()],
+        _ => COMMENT_BODIES[k % COMMENT_BODIES.len()],
+    }
+}
+
 impl Form {
     pub const ALL: [Form; 10] = [
         Form::Space,
@@ -162,7 +175,7 @@ pub fn run(tier: Tier, seed: u64, replay: Option<String>) -> i32 {
     ctx.max_replays = 60;
     ctx.rule = "generator outputs (token lists known): every token boundary individually x layout forms (quick: tab, LF, `-- c` to end of line, `/* c */`, plus the \
                 remaining forms on every 3rd boundary; thorough: all of space, tab, two spaces, LF, CRLF, nothing where the tokens stay separable, `-- c` EOL, \
-                `-- c --`, `/* c */`, nested `/* /* c */ */`), comment bodies with quotes, braces, keywords, END, non-ASCII, * and /; plus random subsets of \
+                `-- c --`, `/* c */`, nested `/* /* c */ */`), comment bodies with quotes, braces, keywords, END, non-ASCII, * and /, `--` inside block comments, `/*` and `*/` inside line comments; plus random subsets of \
                 boundaries re-laid-out at once; oracle: same Ok/Err status, token-identical bindings with #[doc] removed, equal warning multisets; one evaluation = one \
                 re-layout compared with the base layout; non-trivial = the boundary lies inside an assignment and the form differs from the base layout; distinct by variant text"
         .into();
@@ -237,7 +250,7 @@ pub fn run(tier: Tier, seed: u64, replay: Option<String>) -> i32 {
                     if *form == Form::Nothing && !separable(l, r) {
                         continue;
                     }
-                    let body = COMMENT_BODIES[(i + fi) % COMMENT_BODIES.len()];
+                    let body = body_for(*form, i + fi);
                     let sep = form.text(body);
                     if sep == base_sep {
                         continue;
@@ -267,7 +280,7 @@ pub fn run(tier: Tier, seed: u64, replay: Option<String>) -> i32 {
                     if known_ids.contains(&site_id(&kind_of(l), &kind_of(r), form.class())) {
                         continue;
                     }
-                    let body = COMMENT_BODIES[src.pick(COMMENT_BODIES.len())];
+                    let body = body_for(form, src.pick(24));
                     seps[i] = Some(form.text(body));
                     changed += 1;
                 }
